@@ -32,7 +32,7 @@ fn int_digits(n: usize) -> String {
     PAT[..n].to_string()
 }
 fn frac_digits(f: usize) -> String {
-    const PAT: &str = "0625137";
+    const PAT: &str = "06251379284";
     if f == 0 { String::new() } else { let mut s = PAT[..f].to_string(); s.pop(); s.push('5'); s }
 }
 
